@@ -40,6 +40,8 @@ pub fn blocks(thorough: bool) -> Vec<Block> {
         b.push(Block::new(Universe::new("U_ab4{a,b}", &["a", "b"], 4, 4, false), neutral.clone(), d32));
         b.push(Block::new(Universe::new("U_abc3{a,b,c}", &["a", "b", "c"], 3, 4, false), n1.clone(), "<=1 of {g,x,e,na,ne}"));
         b.push(Block::new(Universe::new("U_ab4{a,b}", &["a", "b"], 4, 5, false), vec![Cfg::new(0)], "{}"));
+        b.push(Block::new(Universe::new("U_abc3{a,b,c}", &["a", "b", "c"], 3, 5, false), vec![Cfg::new(0)], "{}"));
+        b.push(Block::new(Universe::new("U_ab4{a,b}", &["a", "b"], 4, 6, false), vec![Cfg::new(0)], "{}"));
         b.push(Block::new(Universe::new("U_adv(A_gc)", A_GC, 2, 3, true), vec![Cfg::new(0)], "{}"));
         b.push(Block::new(Universe::new("U_adv(A_meta)", A_META, 3, 1, false), neutral.clone(), d32));
     }
